@@ -335,7 +335,7 @@ func init() {
 			"Close frames and protocol violations are not part of conforming streams here (C08, C15)",
 			"the sampled real-socket variant is covered by C17/C18's socket workloads",
 		},
-		NumCases:    func(tier, build string) int { return vf.Tiered(tier, 400, 30000) },
+		NumCases:    func(tier, build string) int { return vf.Tiered(tier, 1200, 30000) },
 		Floor:       func(tier string) int { return vf.Tiered(tier, 100, 2000) },
 		CaseTimeout: 60 * time.Second,
 		Run:         runC06,
